@@ -344,7 +344,13 @@ class Walker:
                         tbl = self.facts.consts[right[1]]
                     if tbl is not None and 0 < len(tbl) <= 8 and all(isinstance(k, (str, int)) for k in tbl):
                         right = ('tuple', tuple(C(k) for k in tbl))
-                parts.append(('cmp', _CMPS[type(op)], left, right))
+                c_ = ('cmp', _CMPS[type(op)], left, right)
+                if is_const(left) and is_const(right) and _CMPS[type(op)] in ('==', '!=', 'is', 'is not'):
+                    # constant comparison (None == 0 after inlining a helper that returned None)
+                    d_ = self.decide(c_, st)
+                    if d_ is not None:
+                        c_ = C(d_)
+                parts.append(c_)
                 left = right
             return parts[0] if len(parts) == 1 else ('bool', 'and', tuple(parts))
         if isinstance(node, ast.BoolOp):
@@ -476,7 +482,7 @@ class Walker:
                 env[p_] = self.sym(defaults[p_], PathState())
         return True
 
-    PURE_EVENTS = ('value', 'return', 'cond', 'with', 'endwith')
+    PURE_EVENTS = ('value', 'return', 'cond', 'with', 'endwith', 'try', 'endtry', 'except')
 
     def merge_paths(self, vals, depth):
         """[(path, value)] of the effect-free paths of one call -> a single (conditional) value, or None."""
@@ -484,6 +490,16 @@ class Walker:
             return vals[0][1]
         if all(v == vals[0][1] for _, v in vals):
             return vals[0][1]
+        if depth == 0:
+            # `try: <compute and return X>  except E: return <constant>`: the handler paths describe the failing evaluations of
+            # X; the value of the call where X is defined is X (the fallback constant is recorded on the value)
+            handler = [(p, v) for p, v in vals if any(e[0] == 'except' for e in p.events)]
+            normal = [(p, v) for p, v in vals if not any(e[0] == 'except' for e in p.events)]
+            if handler and normal and all(is_const(v) for _, v in handler) and len({v for _, v in handler}) == 1:
+                inner = self.merge_paths(normal, 0)
+                if inner is None:
+                    return None
+                return ('orelse', inner, handler[0][1])
         tests = [p.conds[depth][0] if len(p.conds) > depth else None for p, _ in vals]
         if any(t is None or t != tests[0] for t in tests):
             return None
